@@ -29,8 +29,11 @@
 (*  Sharp zone = activations none of whose keys is used by another          *)
 (*  activation running at the same time (a cancelled one in its two clean-  *)
 (*  up ticks excepted), with at most `cap` macros started since the last    *)
-(*  idle point; everything else is summarised (dused, over) and only the    *)
-(*  rules under "Everywhere" apply to it.                                   *)
+(*  idle point; everything else is summarised (dused) and only the rules     *)
+(*  under "Everywhere" apply to it.  A macro started as the 5th or later     *)
+(*  since the last idle point may meet a full set of active macros: by the   *)
+(*  documented capacity it may not play at all; if it plays, then exactly.   *)
+(*  The macros started before it stay exact.                                 *)
 (*   S1 the OS events on the macro's keys are exactly the next step          *)
 (*   O1 (S1 where a key step overtakes a pending unicode item)               *)
 (*   S2 no two steps of one activation in the same tick                      *)
@@ -155,10 +158,8 @@ MonInit(p) ==
   [p |-> p, x |-> [i \in DOMAIN p.macros |-> MInfo(p.macros[i])],
    acts |-> <<>>,     \* activations in the sharp zone, oldest first
    dused |-> {},      \* macros with an activation outside the sharp zone since the last idle point
-   nreg |-> 0,        \* macros started since the last idle point (capped)
+   nreg |-> 0,        \* macros started since the last idle point (capped at cap + 1)
    npc |-> 0,         \* cancel-on-press macros among them (capped at 2)
-   over |-> FALSE,    \* more than cap macros were started without an idle point in between: the documented
-                      \* capacity may be exceeded, only E1 / B1 are judged until kanata has settled
    down |-> {},       \* macro keys down at the OS
    ql |-> 0,          \* inputs arrived and not yet processed (one per tick)
    gapIn |-> 0, lastIdle |-> TRUE,
@@ -173,11 +174,14 @@ MonInit(p) ==
 \*  (cancelled; may finish the step in flight) | "cleaning" (only releases) | "done"; ttlS ticks during
 \*  which steps are still allowed (-1 no limit); ttlC ticks until every held key must be up (-1 no limit);
 \*  proc ticks until the activating press is processed; rnd 1 | 2 (later round); key = the macro key is
-\*  still held; rttl ticks during which a new round may still start after the release (-1 no limit)
+\*  still held; rttl ticks during which a new round may still start after the release (-1 no limit);
+\*  opt = more than cap macros were started since the last idle point, so cap macros may still be active when
+\*  this one is to start: the documented capacity applies and it may not play at all (if it plays: exactly)
 NewAct(m, mi) ==
   [mi |-> mi, pos |-> 0, held |-> {}, el |-> 0, stepped |-> FALSE,
    st |-> IF m.x[mi].N = 0 THEN "done" ELSE "live",
-   ttlS |-> 0 - 1, ttlC |-> 0 - 1, proc |-> m.ql + 1, rnd |-> 1, key |-> TRUE, rttl |-> 0 - 1]
+   ttlS |-> 0 - 1, ttlC |-> 0 - 1, proc |-> m.ql + 1, rnd |-> 1, key |-> TRUE, rttl |-> 0 - 1,
+   opt |-> m.nreg + 1 > m.p.cap]
 
 SharpCancelled(a) == a.st \in {"canc", "cleaning"} /\ a.ttlC >= 0
 
@@ -204,14 +208,13 @@ MonIn(m, r) ==
     LET p == m.p
         mi == MacIdx(p, r.c)
         m0 == [m EXCEPT !.ql = @ + 1, !.gapIn = @ + 1]
-    IN IF m.over THEN m0
-       ELSE IF r.e = "d"
+    IN IF r.e = "d"
        THEN LET \* C3: a cancel-on-press macro in its first round, processed and still with steps to play
                 \* (the documentation describes one trigger; with several cancel-on-press macros started
                 \* together which of them arms it is not specified: no claim then)
                 must == SharpQ(m) /\ m.npc = 1 /\ \E i \in DOMAIN m.acts :
                           LET a == m.acts[i] IN
-                          /\ a.st = "live" /\ p.macros[a.mi].pc /\ a.proc = 0 /\ a.rnd = 1
+                          /\ a.st = "live" /\ ~a.opt /\ p.macros[a.mi].pc /\ a.proc = 0 /\ a.rnd = 1
                           /\ a.pos < m.x[a.mi].N /\ p.macros[a.mi].c # r.c
                 m1 == IF must THEN CancelAll(m0, 0, 1, "pc", TRUE)
                       ELSE IF m.trig THEN CancelAll(m0, 0 - 1, 0 - 1, "pc?", TRUE) ELSE m0
@@ -219,14 +222,12 @@ MonIn(m, r) ==
                ELSE LET confl == {i \in DOMAIN m1.acts : ~SharpCancelled(m1.acts[i]) /\ Overlap(m, m1.acts[i].mi, mi)}
                         dconfl == \E j \in m.dused : Overlap(m, j, mi)
                         keep == SelectSeq(m1.acts, LAMBDA a : SharpCancelled(a) \/ ~Overlap(m, a.mi, mi))
-                    IN IF m.nreg + 1 > p.cap
-                       THEN [m1 EXCEPT !.over = TRUE, !.acts = <<>>, !.dused = {}]
-                       ELSE IF confl # {} \/ dconfl
+                    IN IF confl # {} \/ dconfl
                        THEN \* the projections on the macro's keys interleave: outside the sharp zone
-                            [m1 EXCEPT !.nreg = @ + 1, !.trig = @ \/ p.macros[mi].pc, !.acts = keep,
+                            [m1 EXCEPT !.nreg = OMin(@ + 1, p.cap + 1), !.trig = @ \/ p.macros[mi].pc, !.acts = keep,
                                        !.npc = IF p.macros[mi].pc THEN OMin(@ + 1, 2) ELSE @,
                                        !.dused = @ \cup {mi} \cup {m1.acts[i].mi : i \in confl}]
-                       ELSE [m1 EXCEPT !.nreg = @ + 1, !.trig = @ \/ (p.macros[mi].pc /\ ~SharpQ(m)),
+                       ELSE [m1 EXCEPT !.nreg = OMin(@ + 1, p.cap + 1), !.trig = @ \/ (p.macros[mi].pc /\ ~SharpQ(m)),
                                        !.npc = IF p.macros[mi].pc THEN OMin(@ + 1, 2) ELSE @,
                                        !.acts = Append(m1.acts, NewAct(m, mi))]
        ELSE IF mi = 0 THEN m0
@@ -290,8 +291,7 @@ MacroEvent(m, kind, arg) ==
       C == {i \in DOMAIN acts : Uses(acts[i].mi)}
       DoClean(i) == [m EXCEPT !.acts[i] = [acts[i] EXCEPT !.held = @ \ {arg}, !.st = "cleaning", !.ttlS = 0]]
       clAny == {i \in C : CleanOk(acts[i], kind, arg)}
-  IN IF m.over THEN m
-     ELSE IF \E j \in m.dused : Uses(j)      \* outside the sharp zone: nothing can be said
+  IN IF \E j \in m.dused : Uses(j)      \* outside the sharp zone: nothing can be said
      THEN IF clAny # {} THEN DoClean(SetMin(clAny)) ELSE m
      \* the OS sees a release one tick after the key left kanata's state: the tick after an idle report may
      \* still release keys of macros that were cancelled outside the sharp zone
@@ -349,8 +349,9 @@ MonTick(m, out, idle, cb) ==
         \* idle: nothing is queued and no macro runs
         s3 == idle /\ \E i \in DOMAIN m1.acts : LET a == m1.acts[i] IN
                         a.st = "live" /\ a.proc <= 1 /\ a.pos < m.x[a.mi].N
+                        /\ ~(a.opt /\ a.pos = 0 /\ a.rnd = 1)          \* beyond the capacity: may not have started
         r1 == idle /\ \E i \in DOMAIN m1.acts : LET a == m1.acts[i] IN
-                        a.st = "live" /\ a.proc <= 1 /\ p.macros[a.mi].rep /\ a.key
+                        a.st = "live" /\ a.proc <= 1 /\ p.macros[a.mi].rep /\ a.key /\ ~a.opt
         acts3 == IF idle THEN SelectSeq(acts2, SharpCancelled) ELSE acts2
         settled == idle /\ m.lastIdle /\ m.gapIn = 0
         stuck == m1.down # {}
@@ -359,13 +360,9 @@ MonTick(m, out, idle, cb) ==
               ELSE IF s3 THEN Fail(m1, "C08 S3: a macro stopped before all of its steps were played")
               ELSE IF r1 THEN Fail(m1, "C08 R1: kanata is idle although the key of a repeating macro is held")
               ELSE IF settled /\ stuck
-              THEN Fail(m1, IF m1.over
-                            THEN "C08 E1: a key pressed by a macro is still down although kanata is idle [more than 4 macros were started without an idle point in between]"
-                            ELSE "C08 E1: a key pressed by a macro is still down although kanata is idle")
-              ELSE IF p.b1 /\ cb /\ stuck /\ ~m1.over
-              THEN Fail(m1, IF m1.lastc = "rc"
-                            THEN "C08 B1: kanata can block while a key pressed by a macro is still down at the OS [after macro-release-cancel]"
-                            ELSE "C08 B1: kanata can block while a key pressed by a macro is still down at the OS")
+              THEN Fail(m1, "C08 E1: a key pressed by a macro is still down although kanata is idle")
+              ELSE IF p.b1 /\ cb /\ stuck
+              THEN Fail(m1, "C08 B1: kanata can block while a key pressed by a macro is still down at the OS")
               ELSE IF settled /\ m1.vbal < 0
               THEN Fail(m1, "C08 V1: a virtual-key item of a completed macro did not act")
               ELSE m1
@@ -377,14 +374,13 @@ MonTick(m, out, idle, cb) ==
                   !.dused = IF idle THEN {} ELSE @,
                   !.trig = IF idle THEN FALSE
                            ELSE @ \/ \E i \in DOMAIN acts2 : p.macros[acts2[i].mi].pc /\ acts2[i].proc = 0,
-                  !.over = IF settled THEN FALSE ELSE @,
                   !.lastc = IF settled THEN "none" ELSE @,
                   !.vbal = IF settled THEN 0 ELSE @]
 
 RECURSIVE MonSilent(_, _, _, _)
 MonSilent(m, n, idle, cb) ==
   IF n = 0 \/ m.err # "" THEN m
-  ELSE IF m.acts = <<>> /\ m.ql = 0 /\ m.gapIn = 0 /\ m.lastIdle = idle /\ idle /\ ~m.over /\ ~m.trig
+  ELSE IF m.acts = <<>> /\ m.ql = 0 /\ m.gapIn = 0 /\ m.lastIdle = idle /\ idle /\ ~m.trig
           /\ m.lastc = "none" /\ m.vbal = 0 /\ m.down = {} /\ m.dused = {} /\ m.nreg = 0 /\ m.npc = 0
   THEN m
   ELSE MonSilent(MonTick(m, <<>>, idle, cb), n - 1, idle, cb)
